@@ -813,7 +813,7 @@ class C18(Property):
             role = rng.weighted(["static", "dynamic", "dynamic_nopred", "dynamic_set", "env", "phantom"],
                                 [2, 6, 1, 1.5, 1, 1])
             kinds = ("rect", "circ", "poly", "group") if rng.chance(0.2) else ("rect", "circ", "poly")
-            ob = gen.gen_obstacle(rng, ids.take(), net, role=role, shape_kinds=kinds, interval_steps=0.3)
+            ob = gen.gen_obstacle(rng, ids.take(), net, role=role, shape_kinds=kinds, interval_steps=0.3, shuffle_occ=0.4)
             if ob.get("shape", {}).get("t") == "group":
                 features.add("shape-group")
             if role in ("dynamic_set", "phantom"):
